@@ -654,7 +654,7 @@ func main() {
 		return
 	}
 	r := gen.NewRand(f.Seed)
-	n := f.N(250, 2500)
+	n := f.N(200, 2500)
 	for k := 0; k < n; k++ {
 		sc := genScenario(r)
 		runScenario(sc, fmt.Sprintf("scenario %d", k), k%10 == 0, func(i int) json.RawMessage {
